@@ -133,6 +133,21 @@ func LoadRepo(dir string) (*Gen, error) {
 	for k, id := range fixedTypeIDs {
 		g.typeIDs[k] = id
 	}
+	// package-level error sentinels (errors.New in init): distinct, non-nil, never written
+	for _, p := range g.Pkgs {
+		var names []string
+		for n, m := range p.Members {
+			if gl, ok := m.(*ssa.Global); ok {
+				if pt, ok := gl.Type().(*types.Pointer); ok && g.SortOf(pt.Elem()) == "Iface" && types.Identical(pt.Elem(), types.Universe.Lookup("error").Type()) {
+					names = append(names, n)
+				}
+			}
+		}
+		sort.Strings(names)
+		for _, n := range names {
+			g.Global("g_"+smtIdent(p.Pkg.Path()+"."+n), "Iface", true)
+		}
+	}
 	return g, nil
 }
 
@@ -446,11 +461,14 @@ func (g *Gen) EmitDecls(b *strings.Builder) {
 	if len(g.globalDistinct) > 1 {
 		fmt.Fprintf(b, "(assert (distinct %s))\n", strings.Join(g.globalDistinct, " "))
 	}
+	var alts []string
 	for _, n := range g.globalDistinct {
 		if g.globals[n] == "Iface" {
-			fmt.Fprintf(b, "(assert (and (not (= (itype %s) 0)) (> (iref %s) 0)))\n", n, n)
+			fmt.Fprintf(b, "(assert (and (= (itype %s) %d) (> (iref %s) 0)))\n", n, g.TypeID(types.NewPointer(types.Typ[types.Invalid])), n)
+			alts = append(alts, "(= e "+n+")")
 		}
 	}
+	fmt.Fprintf(b, "(define-fun errors.repoSentinel ((e Iface)) Bool (or %s false))\n", strings.Join(alts, " "))
 	for _, d := range g.extraDecls {
 		b.WriteString(d)
 		b.WriteString("\n")
